@@ -322,3 +322,65 @@ def solver_sweep(rep, tier, enforced):
         if t["job"]["scale"] != "1.0":
             rep.regime("solver_scaled_covariance")
     return ok, acc, fail
+
+
+# ----------------------------------------------------------------------------- exact consensus-step replay
+def zstep_job(job):
+    """The real consensus step on integer data (spec -> code, judged by TraceZUpdate)."""
+    common.use_repo()
+    from fast_ticc.admm import solver
+    from fast_ticc.containers import arguments
+    N, W, rho, form, seed = job
+    rng = random.Random(seed)
+    n = N * W
+    nc = n * (n + 1) // 2
+    x = np.array([rng.randint(-3, 3) for _ in range(nc)], dtype=np.float64)
+    u = np.array([rng.randint(-2, 2) for _ in range(nc)], dtype=np.float64)
+    v = rng.choice([0, 1, 2, 3])
+    if form == "scalar":
+        lam, lam_json, constant = float(v), [v], True
+    elif form == "matrix_const":
+        lam = np.zeros((n, n)) + float(v)
+        lam_json, constant = [[v] * n for _ in range(n)], True
+    else:
+        a = np.array([[rng.randint(0, 3) for _ in range(n)] for _ in range(n)])
+        a = np.triu(a) + np.triu(a, 1).T
+        lam, lam_json, constant = a.astype(np.float64), [[int(t) for t in row] for row in a], False
+
+    def args_for(l):
+        return arguments.ADMMArguments(window_size=W, num_data_series=N, rho=float(rho), rho_update=None,
+                                       sparsity_weight=l, absolute_tolerance=1e-6, relative_tolerance=1e-6,
+                                       max_iterations=10, verbose=False)
+    snap = (x.tobytes(), u.tobytes(), lam.tobytes() if isinstance(lam, np.ndarray) else repr(lam))
+    z = solver.admm_update_z(args_for(lam), u, x)
+    same = snap == (x.tobytes(), u.tobytes(), lam.tobytes() if isinstance(lam, np.ndarray) else repr(lam))
+    zs = solver.admm_update_z(args_for(float(v)), u, x) if constant else z
+    # what compute_lambda_sum says for every class, stored at the class's first compressed position
+    lamsum = [0] * nc
+    for (b, r, c), pos in class_positions(N, W).items():
+        val = solver.compute_lambda_sum(lam, b, r, c, N, W)
+        p0 = pos[0]
+        lamsum[p0[0] * n - p0[0] * (p0[0] - 1) // 2 + (p0[1] - p0[0])] = int(round(float(val)))
+    return {"N": N, "W": W, "rho": rho, "scalar": form == "scalar", "constant": constant, "lam": lam_json,
+            "s": [int(a + b) for a, b in zip(x, u)], "zq": [int(round(float(t) * 65536)) for t in z],
+            "zqScalarForm": [int(round(float(t) * 65536)) for t in zs], "lamsum": lamsum, "args_same": same,
+            "form": form}
+
+
+def zstep_replay(rep, tier, enforced):
+    rng = random.Random(common.seed() * 911 + 2)
+    shapes = [(1, 1), (1, 3), (2, 1), (2, 2), (2, 3), (3, 2), (3, 3), (2, 4), (4, 2)]
+    jobs = [(N, W, rho, form, rng.randrange(1 << 30)) for (N, W) in shapes for rho in (1, 2, 4)
+            for form in ("scalar", "matrix_const", "matrix_sym") for _ in range(2 if tier == "quick" else 30)]
+    recs = common.pmap_chunked(zstep_job, jobs, chunk=8)
+    acc, fail, res = tracecheck.validate("TraceZUpdate", recs, enforced)
+    for r in res:
+        rep.add_tlc(r)
+    rep.cov["evaluations"] += len(recs)
+    rep.cov["traces_validated_against_impl"] += len(acc)
+    rep.regime("exact_consensus_step_records", len(recs))
+    for gi, fl in sorted(fail.items()):
+        r = recs[gi]
+        rep.violation(fl[0][1], {"record": {k: v for k, v in r.items() if k not in ("zq", "zqScalarForm")}, "clauses": fl},
+                      f"N={r['N']} W={r['W']} rho={r['rho']} lambda form={r['form']}")
+    return recs
